@@ -301,6 +301,51 @@ pub fn spaces(tier: Tier) -> Vec<Space> {
             }
         }));
     }
+    // (a4w) index operands of every encoding width, used where their value matters: OP_SPLIT of a 70 000-byte item (thorough:
+    // also a 9 000 000-byte item) at positions on both sides of every byte boundary of the position's encoding and with a
+    // single bit set in each byte, and OP_NUM2BIN of the number 1 to sizes with the same patterns up to 1 MiB. A 3-byte
+    // operand is only distinguishable from a mis-decoded one when the item is at least 65 536 bytes long.
+    {
+        let mut pos: Vec<u64> = vec![0, 1, 2, 127, 128, 129, 255, 256, 257, 32767, 32768, 32769, 65535, 65536, 65537, 69999, 70000, 70001];
+        for k in 0..24u32 {
+            pos.push(1 << k);
+            pos.push((1 << k) + 1);
+            if k >= 16 {
+                pos.push((1 << 16) + (1 << (k - 8)));
+            }
+        }
+        pos.sort();
+        pos.dedup();
+        let pos_small: Vec<u64> = pos.iter().copied().filter(|p| *p <= 1 << 20).collect();
+        let big_item: u64 = 9_000_000;
+        let mut pos_big: Vec<u64> = vec![8388607, 8388608, 8388609, 8999999, 9000000, 9000001];
+        for k in 16..24u32 {
+            pos_big.push(1 << k);
+            pos_big.push((1 << 23) + (1 << (k - 16)));
+        }
+        let (n1, n2, n3) = (pos_small.len() as u64, pos_small.len() as u64, if thorough { pos_big.len() as u64 } else { 0 });
+        v.push(Space::new("index-operand-widths", n1 + n2 + n3, move |case, acc| {
+            let (what, item_len, n) = if case.idx < n1 {
+                ("SPLIT", 70_000u64, pos_small[case.idx as usize])
+            } else if case.idx < n1 + n2 {
+                ("NUM2BIN", 1, pos_small[(case.idx - n1) as usize])
+            } else {
+                ("SPLIT", big_item, pos_big[(case.idx - n1 - n2) as usize])
+            };
+            let operand = ri::enc(&num_bigint::BigInt::from(n));
+            let toks: Vec<Tok> = if what == "SPLIT" {
+                let blob: Vec<u8> = (0..item_len as usize).map(|i| (i % 253) as u8 | 1).collect();
+                // x n SPLIT SIZE NIP SWAP SIZE NIP : leaves the two lengths (the stacks are compared after every step anyway)
+                vec![rs::minimal_push(&blob), super::icommon::push_tok(&operand), Tok::Op(0x7f), Tok::Op(0x82), Tok::Op(0x77), Tok::Op(0x7c), Tok::Op(0x82), Tok::Op(0x77)]
+            } else {
+                vec![Tok::Op(0x51), super::icommon::push_tok(&operand), Tok::Op(0x80), Tok::Op(0x82), Tok::Op(0x77)]
+            };
+            let desc = || json!({"program": if what == "SPLIT" { "x n SPLIT SIZE NIP SWAP SIZE NIP" } else { "1 n NUM2BIN SIZE NIP" }, "item_len": item_len, "n": n, "n_encoded": hex::encode(&operand)});
+            if let Some(d) = check_program(&toks, acc, case, &desc) {
+                report(acc, case, &toks, &d, &desc);
+            }
+        }));
+    }
     // (a3) content sweeps: every arity-1 opcode on EVERY item of length 1 and 2 (65792 items); every arity-2 opcode on every
     // ordered pair of 1-byte items (65536 pairs) - decides content-dependent behaviour (sign bytes, 0x80/0x00 tails,
     // negative zero, byte values that look like opcodes) instead of sampling it through the 22-value alphabet
